@@ -53,7 +53,7 @@ def make_cases(tier, seed, n_random=None, min_batches=None, pair_batch=8):
     q, sigma, m = (3, 2, 5) if quick else (4, 2, 7)
     autos = [(n, a) for n, a in dom_wfsa.nice_corpus().items()]
     for i in range(n_random):
-        fam = "frac" if i % 3 else "int"
+        fam = "signed" if i % 5 == 4 else ("frac" if i % 3 else "int")
         for _ in range(20):
             a = dom_wfsa.nice_wfsa(rng, fam, q, sigma, m)
             if ratspec.eps_converges(a):
